@@ -4,6 +4,7 @@ CONSTANTS
  MaxCloses = 2
  MaxOps = 1
  KeyMode = "symlinks"
+ LockRefTgt = TRUE
  Eager = FALSE
 SPECIFICATION Spec
 INVARIANTS TypeOK LocksNonNeg MarkIsReach
